@@ -61,11 +61,19 @@ func (pc *parentController) callHook(
 		return nil, nil
 	}
 
+	// A hook may return null entries in the list; drop them here so that nothing
+	// downstream has to deal with nil children.
+	children := make([]*unstructured.Unstructured, 0, len(response.Children))
 	for _, child := range response.Children {
-		if child != nil && child.GetNamespace() == "" {
+		if child == nil {
+			continue
+		}
+		if child.GetNamespace() == "" {
 			child.SetNamespace(parent.GetNamespace())
 		}
+		children = append(children, child)
 	}
+	response.Children = children
 
 	return &response, nil
 }
